@@ -671,7 +671,7 @@ pub fn oracle(ctx: &mut Ctx) {
     // ---- the executable over a set of files (the pool is also what runs the files side by side): whatever --threads
     // says, the same files are written with the same bytes - also when one file of the set is skipped (a C2PA manifest
     // the policy keeps) or cannot be decoded ---------------------------------------------------------------------------
-    if crate::cli::bin_path().exists() {
+    if crate::cli::binary_available() {
         let dir = crate::cli::work_dir("determinism");
         for _ in 0..(ctx.n / 40).max(4) {
             let w = dir.join("w");
